@@ -286,6 +286,11 @@ class CContext:
         fmt = self.ctypes_names[tid]
         # Check format with arch options:
         assert self.sizeof(typ) == struct.calcsize(fmt)
+        if isinstance(value, int) and not (typ.is_float or typ.is_double):
+            # Convert to the destination type, wrap around modulo 2^n. The
+            # two's complement image is that of the unsigned value:
+            value %= 1 << (8 * self.sizeof(typ))
+            fmt = fmt.upper()
         return struct.pack(fmt, value)
 
     def _make_ival(self, typ, ival):
